@@ -1874,6 +1874,10 @@ def run_check(ck: Check, pid: str):
     ck.coverage['workflow_pass_classes'] = len(summary['pass_classes'])
     ck.coverage['workflow_nodes_max'] = summary['nodes_max']
     ck.coverage['generated_sha'] = summary['sha']
+    # numeric leaves the translator RAN on dummy targets and that raised (memoised classes)
+    ck.coverage['translator_dummy_raises'] = len(summary.get('dummy_raises', []))
+    ck.coverage['translator_dummy_runs'] = {
+        k: v for k, v in summary.get('dummy_time', {}).items() if k.endswith('/n')}
     log(f"translator: {summary['workflows']} workflows")
     # 2. Lean obligations
     proved = ck.lean_obligations()
